@@ -3,6 +3,7 @@ package c04
 import (
 	"encoding/json"
 	"fmt"
+	"github.com/nspcc-dev/neo-go/pkg/config"
 	"os"
 	"strings"
 	"testing"
@@ -73,14 +74,40 @@ type nodeError struct {
 
 func (e *nodeError) Error() string { return e.kind + ": " + e.err.Error() }
 
-func newWorld(t testing.TB, idx int) (w *world, err error) {
+// partialForks returns a protocol configuration with the stable hardforks
+// enabled from genesis only up to and including stage ("none": none of them).
+func partialForks(stage string) func(*config.Blockchain) {
+	return func(c *config.Blockchain) {
+		c.MaxTraceableBlocks = 10
+		c.MaxValidUntilBlockIncrement = 5
+		m := map[string]uint32{}
+		if stage != "none" {
+			for _, hf := range config.StableHardforks {
+				m[hf.String()] = 0
+				if hf.String() == stage {
+					break
+				}
+			}
+		}
+		if len(m) == 0 {
+			m[config.StableHardforks[0].String()] = 1 << 30
+		}
+		c.Hardforks = m
+	}
+}
+
+func newWorld(t testing.TB, idx int, stage ...string) (w *world, err error) {
 	defer func() {
 		if x := recover(); x != nil {
 			err = fmt.Errorf("set-up panic: %v", x)
 		}
 	}()
 	w = &world{t: t, idx: idx}
-	w.h = vchain.BuildHistory(t, vchain.HistoryCfg{Idx: idx, Blocks: 4, NoQuiet: true})
+	hc := vchain.HistoryCfg{Idx: idx, Blocks: 4, NoQuiet: true}
+	if len(stage) > 0 && stage[0] != "" {
+		hc.Proto, hc.PName = partialForks(stage[0]), "forks-up-to-"+stage[0]
+	}
+	w.h = vchain.BuildHistory(t, hc)
 	w.A = w.h.P
 	w.proto = w.h.PName
 	if w.A.Rejected != nil {
